@@ -15,6 +15,8 @@ stdin: JSON list of cases {op: ...}; stdout: JSON list of canonical observations
                                                           epydoc2stan.reportErrors -> [violations, printed, sorted(parse_errors[section])]
   tail     {verbosity, wae, violations, pe:[[section,[names]],...]}   driver.main with get_system/make substituted
                                                           -> [code, violations, number of printed lines]
+  rstreader {line}                                       restructuredtext._EpydocReader.report(system_message(line=...))
+                                                          -> [ParseError._linenum, the lineno_offset reportErrors derives from it]
   attrline {fmt, src, cls, attr}                          extract_fields: line of an attribute documented by a field
                                                           -> [cls.docstring_lineno, attr.linenumber, attr.docstring_lineno]
 """
@@ -39,6 +41,7 @@ def mk_obj(system, description, ds, ln, is_module):
         o = mod
     else:
         o = model.Function(system, 'f', mod)
+        o.parentMod = mod
         system.addObject(o)
     o.docstring_lineno = ds
     if ln:
@@ -126,6 +129,17 @@ def run_case(c):
         finally:
             driver.get_system, driver.make = old_gs, old_make
         return [code, holder['s'].violations, len(out)]
+    if op == 'rstreader':
+        from docutils import nodes
+        from pydoctor.epydoc.markup import restructuredtext as rst
+        errors = []
+        reader = rst._EpydocReader(errors)
+        attrs = {'level': c.get('level', 2), 'type': 'WARNING'}
+        if c['line'] is not None:
+            attrs['line'] = c['line']
+        reader.report(nodes.system_message('some message', **attrs))
+        e = errors[0]
+        return [e._linenum, (e.linenum() or 1) - 1]
     if op == 'attrline':
         opts = Options.defaults()
         opts.verbosity = -1
